@@ -121,6 +121,7 @@ func GenCase(r *vh.Rng, flavor string) Case {
 	}
 	live := map[string]bool{}
 	var items []Item
+	var lastObj *Inner
 	liveIDs := func() []string {
 		var l []string
 		for _, id := range IDPool {
@@ -297,13 +298,26 @@ func GenCase(r *vh.Rng, flavor string) Case {
 			case "flag":
 				o.Int = int64(r.Intn(2))
 			case "obj":
-				if r.Chance(65) {
+				if lastObj != nil && r.Chance(40) {
+					// the same object with one bytes field changed: empty <-> null <-> a few bytes
+					cp := *lastObj
+					if r.Bool() {
+						cp.B = genBytes(r)
+					} else if cp.P != nil && r.Chance(60) {
+						cp.P = nil
+					} else {
+						b := genBytes(r)
+						cp.P = &b
+					}
+					o.Obj = &cp
+				} else if r.Chance(65) {
 					o.Obj = &Inner{X: int64(r.Intn(3)), Y: r.Pick(strVals), B: genBytes(r)}
 					if r.Chance(60) {
 						b := genBytes(r)
 						o.Obj.P = &b
 					}
 				}
+				lastObj = o.Obj
 			case "items":
 				items = genItems(r, items)
 				o.Items = append([]Item{}, items...)
